@@ -14,19 +14,19 @@ TRUSTED = ("Trusted base: CPython's ast parser; the engines under /verif/sa (exe
 CHECKS = {
     'C08': dict(
         technique='gated value numbering of DCMotor.compute_torque/compute_electric_current to canonical '
-                  'rational terms (AST abstract evaluation, normal-form equality; no execution, no solver)',
+                  'rational terms (AST abstract evaluation, normal-form equality; no execution, no solver); operand-term comparison of every order test of the duty cycle in the two laws (float-identical partition of the dead zone)',
         text='Decides the code shape of the piecewise motor laws: every specified case (guards with operator and '
              'threshold, coefficients, unit handling with symbolic unit factors) is matched against the gated '
              'canonical terms extracted from the source; mirror symmetry and continuity at the dead-zone boundary '
              'are polynomial identities of the extracted terms. Holds for all motor constants, speeds and duty '
-             'cycles over the reals; floating-point neighbours of the boundary are not decided.',
+             'cycles over the reals; floating-point neighbours of the boundary are not decided. The tests that partition the duty-cycle axis must compare the same two operand terms in both laws (so that the laws agree at the floating-point neighbours of the boundary); other rounding is not decided.',
         design='4/C08', engine='sa.sx + sa.match'),
 }
 
 CHECKS['C05'] = dict(
     technique='exhaustive unit-table comparison against an independent SI grammar over Q[pi]; symbolic evaluation '
               '(gated value numbering) of all 13 to() implementations and of the 6 comparison dunders for every ordered '
-              'pair of kinds; unit-factor survival test for unit-blindness',
+              'pair of kinds; unit-factor survival test for unit-blindness; per-unit concrete evaluation of a to() that consults further constant tables',
     text='Decides conversion and comparison semantics from the source for every unit and every real value: all 66 '
          'factors equal the SI definitions exactly; every to() path preserves the SI magnitude, labels the target '
          'unit, copy == in-place; each comparison dunder is the specified predicate of the SI difference and rejects '
@@ -35,7 +35,7 @@ CHECKS['C05'] = dict(
 CHECKS['C06'] = dict(
     technique='static operator-dispatch model (MRO, reflected-first rule) over all 780 (kind, op, kind|number) triples; '
               'operator bodies evaluated with symbolic SI magnitudes and symbolic units; canonical-term equality '
-              'SI(result) == S op O and dimensional-analysis oracle for the result kind',
+              'SI(result) == S op O and dimensional-analysis oracle for the result kind; AST who-writes rule: no arithmetic dunder (binary, reflected, in-place, unary) writes into an operand',
     text='Exhaustive over operand kinds and symbolic (hence all) unit choices and magnitudes over the reals: every '
          'non-raising path of every operator returns the dimensionally dictated kind and an SI magnitude canonically '
          'equal to the operation on the operands\' SI magnitudes, which implies (a+b)-b = a and a-b = -(b-a). '
@@ -45,7 +45,7 @@ CHECKS['C06'] = dict(
 CHECKS['C19'] = dict(
     technique='constructor-guard dominance: symbolic evaluation of all quantity constructors, operators (780 triples, '
               'constructor guards inlined), abs/neg/to() and component constructors; who-may-write census of the private '
-              'value fields; IEEE-aware sign domain for the in-place store; sign-lattice implication of guards',
+              'value fields; IEEE-aware sign domain for the in-place store; sign-lattice implication of guards; worm-limit table rows and lookup keys (shared with C09/C07)',
     text='Necessary structural condition decided for every path: no sign-constrained quantity is created or mutated '
          'without the constructor\'s sign check of exactly the stored/constructed term dominating it, no operator path '
          'returns None, no writer of the private fields exists outside __init__/to(), and every required component '
@@ -56,7 +56,7 @@ CHECKS['C19'] = dict(
 CHECKS['C09'] = dict(
     technique='gated value numbering of the force/bending/contact methods and gear constructors to canonical terms '
               'matched per mating role against specification terms; exhaustive truth tables of the computable flags; '
-              'AST check of the interp1d call shape; row-by-row comparison of the two CSV tables with reference tables',
+              'AST check of the interp1d call shape; row-by-row comparison of the two CSV tables with reference tables; C10 effect/atomic rules re-read for the mate links; operator triples met re-read from C06',
     text='Decides the code shape of every gear formula named by the property for all parameter values over the reals '
          '(force by role, Lewis bending incl. helical virtual teeth and worm-wheel normal-pitch form, Hertz contact by '
          'role), the ValueError exits under missing mate data, the three flags as exhaustive truth tables, linear clamped '
@@ -79,7 +79,7 @@ CHECKS['C15'] = dict(
     technique='gated value numbering of the rule classes and Timer (sensor reads inlined, reduction loops summarised as '
               'canonical atoms); windows compared as exhaustive sign/truth tables over comparison atoms; proposal formulas '
               'as canonical terms; cross-module polynomial identity between the StartLimitCurrent root and the motor laws '
-              'extracted from dc_motor.py',
+              'extracted from dc_motor.py; operator triples met by the evaluator re-read from the C06 dispatch model; alias rule for references to rebound containers',
     text='Decides, for all rule parameters and states over the reals, the activity window (operators, inclusive ends) and '
          'the proposal formula of ConstantPWM/Timer, ReachAngularPosition (static error), StartProportionalToAngularPosition '
          '(minimum duty cycle, ramp, missing-parameter error) and StartLimitCurrent, and that the duty cycle StartLimitCurrent '
@@ -121,7 +121,7 @@ CHECKS['C11'] = dict(
 CHECKS['C12'] = dict(
     technique=SOLVER_T + 'branch-effect comparison of the continuation path, upward-exposed solver state (fields run() both '
               'writes and reads must be initialised on the fresh-start branch), symbolic evaluation of Powertrain.reset '
-              '(restore pairing key<->attribute, controlling guards by path intersection, fresh list per key)',
+              '(restore pairing key<->attribute, controlling guards by path intersection, fresh list per key); who-may-hold rules over all classes: no field bound to a one-shot iterator, no construction-time reference to a container its owner rebinds; every exit of reset() restores the elements',
     text='The continuation branch writes nothing, records nothing and re-initialises nothing before stepping and starts from '
          'time[-1] with unit-aware arithmetic; solver state cannot leak from an earlier schedule into a fresh start; reset '
          'empties the axis and every list and restores every attribute from sample [0] of its own variable under that '
@@ -131,7 +131,7 @@ CHECKS['C12'] = dict(
 CHECKS['C13'] = dict(
     technique=SOLVER_T + 'exhaustive sign/truth table of the lock and unlock decisions against the specified predicate; '
               'dominance of the self_locking test; placement of the uniform zero clamp by event ordering; symbolic evaluation '
-              'of the self-locking scan of Powertrain.__init__',
+              'of the self-locking scan of Powertrain.__init__; event-order rule: no write of the duty cycle precedes the lock decision that reads it in any instant context',
     text='Structural clause only: the lock decision is exactly [self-locking and (pwm = 0 or pwm opposes the motor speed)], the '
          'release exactly [net motor torque known and with the sign of a non-zero pwm]; the flag is set only under '
          'Powertrain.self_locking, survives continued runs, and comes from the any-self-locking-worm scan; while locked all '
@@ -151,7 +151,7 @@ CHECKS['C20'] = dict(
     technique='abstract interpretation of Powertrain.__init__ on every concrete chain of 2..5 elements (spur / self-locking worm / '
               'reversible worm, with and without back-links; while/for/comprehensions unrolled over the concrete chain) and on '
               'every equal/distinct name pattern; symbolic evaluation of the self-locking scan over the abstract element tuple; '
-              'read-only/who-may-write census of the two private fields',
+              'read-only/who-may-write census of the two private fields; C10 effect and atomicity rules re-read for the links and flags the assembly consumes',
     text='The stored tuple is exactly the drives-chain from the motor, in order; unconnected motor, non-motor and duplicate names '
          '(adjacent or not) are rejected before assembly; self_locking is True exactly when some element is a WormGear flagged '
          'self-locking; elements and self_locking are setter-less properties returning fields that nothing outside __init__ '
@@ -171,7 +171,7 @@ CHECKS['C17'] = dict(
               + SOLVER_T + 'one time append and one unconditional recorder loop over all elements per instant; compute-guard '
               'implied by record-guard; setter kind checks, setters store their argument in their own field, forwarding clones '
               'forward to their own property; fresh start = one instant + one record before stepping, continuation = none; reset '
-              'and export mapping completeness',
+              'and export mapping completeness; every append of the recorders targets a time_variables entry looked up at the call',
     text='For all six element classes and every subset of optional data: each advertised key receives exactly one sample per '
          'recorded instant, of the element\'s own attribute, whose setter enforces the kind; derived variables are computed whenever '
          'they are recorded; reset empties every list with a fresh list. Known finding: WormWheel bending stress depends on the '
@@ -182,7 +182,7 @@ CHECKS['C18'] = dict(
               'their controlling tests (control dependence), variable/unit/data pairing by AST dataflow, interp1d call shape; '
               'abstract evaluation of the export utility\'s column statements per variable (label string, cell as a canonical '
               'term over the generic sample with symbolic unit factors), of the snapshot admission test and of the predeclared '
-              'column list; AST rule for the forwarding call',
+              'column list; AST rule for the forwarding call; dataflow of the exported file path (given path plus constant suffix, element name unchanged)',
     text='Every snapshot column is written under the membership test of its own variable only, converted and labelled with its '
          'own unit parameter, filled from its own recorded list, interpolated linearly with abscissae and query in seconds, and '
          'snapshot keeps no cached state; export pairs label, conversion unit and data per variable, writes the time column in '
@@ -195,7 +195,7 @@ CHECKS['C07'] = dict(
     technique='units-of-measure analysis with symbolic unit factors: every evaluable function of the package (329) and every '
               'value of the solver IR is evaluated in SI-magnitude space; a stored/returned/compared/passed term that still '
               'depends on the factor of an object\'s own unit is a violation; AST rule against converted raw numbers as '
-              'exact-match keys; fail-closed census of all .value reads; exact unit tables and to() (shared with C05)',
+              'exact-match keys; fail-closed census of all .value reads; exact unit tables and to() (shared with C05); no value- or unit-based __hash__ on quantities (dict/set keys)',
     text='Necessary condition for unit-independence, decided for all inputs and all unit assignments at once (units are '
          'symbols): no raw magnitude whose unit is not pinned reaches a result, decision, lookup key or recorded value anywhere '
          'outside the units package; with C05/C06 (quantity operators are unit-blind) this is the complete list of ways an '
